@@ -77,7 +77,7 @@ class World:
 
     # ---- stubs installed into sievelib.managesieve
     def create_connection(self, addr, *a, **k):
-        if self.lazy.next(8, "refuse") == 7:
+        if self.lazy.next(2, "refuse") == 1:
             raise _real_socket.error("connection refused")
         s = WSock(self, tls=False)
         s.greet()
